@@ -116,7 +116,7 @@ def roundtrip_part(ctx: vlib.Ctx):
     ctx.assumptions.append("unions are decided under C11; NamedTuple/TypedDict/abstract collections/leaf-typed mapping keys by the oracle only")
     cases, bad, log = tycorr.run(ctx, "c01_ty", ctx.budget(50, 400), 3, depth=3, foreign=1)
     hits = tyoracle.report_corr(ctx, "TyModel (pk, uk) vs BasicEncoder/BasicDecoder", cases, bad, log)
-    n = ctx.budget(300, 3000) if not hits else ctx.budget(1500, 8000)
+    n = ctx.budget(900, 6000) if not hits else ctx.budget(2500, 12000)
     for fam, ns, t, ty, sg in tyoracle.schema_stream(ctx.rng, n, literals=True):
         try:
             enc = BasicEncoder(ty)
